@@ -201,6 +201,13 @@ func (m *chainMachine) bDeployCreate(t *rapid.T) (cmBuilt, bool) {
 	ten := m.tenants()[m.pick(t, "tenant", 3)]
 	dseq := rapid.SampledFrom(cmDSeqs).Draw(t, "dseq")
 	id := dtypes.DeploymentID{Owner: ten.bech, DSeq: dseq}
+	spelling := ""
+	if rapid.IntRange(0, 7).Draw(t, "upperCaseOwner") == 0 {
+		// the same account, written in the other spelling bech32 admits
+		id.Owner = strings.ToUpper(ten.bech)
+		spelling = ",owner spelt in upper case"
+		m.label("owner-upper-case")
+	}
 	ng := rapid.IntRange(1, 3).Draw(t, "ngroups")
 	var groups []dtypes.GroupSpec
 	for i := 0; i < ng; i++ {
@@ -223,7 +230,7 @@ func (m *chainMachine) bDeployCreate(t *rapid.T) (cmBuilt, bool) {
 		}
 	}
 	msg := &dtypes.MsgCreateDeployment{ID: id, Groups: groups, Version: cmVersion(rapid.IntRange(0, 200).Draw(t, "ver")), Deposit: cmCoin(dep)}
-	return cmBuilt{fmt.Sprintf("CreateDeployment(%s/%d,groups=%d,deposit=%d,prices=%s)", ten.name, dseq, ng, dep, cmGroupPrices(groups)), msg, ten}, true
+	return cmBuilt{fmt.Sprintf("CreateDeployment(%s/%d,groups=%d,deposit=%d,prices=%s%s)", ten.name, dseq, ng, dep, cmGroupPrices(groups), spelling), msg, ten}, true
 }
 
 func maxI64(a, b int64) int64 {
@@ -610,7 +617,8 @@ func (m *chainMachine) aAdvance(t *rapid.T) {
 	// tenant's top-up (rather than a withdrawal or a close)
 	if due := m.overdueAccounts(); len(due) > 0 && rapid.IntRange(0, 2).Draw(t, "lateTopUp") == 0 {
 		a := due[m.pick(t, "overdue", len(due))]
-		if did, ok := dtypes.DeploymentIDFromEscrowAccount(a.ID); ok {
+		if dd, ok := m.snap.deploymentOfAccount(a.ID); ok {
+			did := dd.DeploymentID
 			if tenant, ok := m.byAddr[did.Owner]; ok {
 				add := cmCoin(int64(rapid.IntRange(1, 40).Draw(t, "lateAmount")) * maxI64(1, m.params.depMin/100))
 				m.label("late-deposit-first-to-settle")
@@ -1034,10 +1042,11 @@ func (m *chainMachine) aExhaustExactly(t *rapid.T) {
 		t.Skip("no funded account with open payments")
 	}
 	c := cands[m.pick(t, "account", len(cands))]
-	did, ok := dtypes.DeploymentIDFromEscrowAccount(c.acc.ID)
+	dd, ok := m.snap.deploymentOfAccount(c.acc.ID)
 	if !ok {
 		t.Skip("not a deployment account")
 	}
+	did := dd.DeploymentID
 	tenant := m.byAddr[did.Owner]
 	// what will be left at the current height after settling
 	elapsed := sdk.NewInt(m.height - c.acc.SettledAt)
@@ -1057,10 +1066,11 @@ func (m *chainMachine) aExhaustExactly(t *rapid.T) {
 	m.label("exhaust-exactly")
 	m.advance(k.Int64())
 	p := c.pays[m.pick(t, "payee", len(c.pays))]
-	lid, ok := mtypes.LeaseIDFromEscrowAccount(p.AccountID, p.PaymentID)
+	ll, ok := m.snap.leaseOfPayment(p.AccountID, p.PaymentID)
 	if !ok {
 		return
 	}
+	lid := ll.LeaseID
 	name := m.bidName(mtypes.BidID(lid))
 	if rapid.IntRange(0, 3).Draw(t, "withdrawAtZero") > 0 {
 		m.deliver("WithdrawLease("+name+")[at exact exhaustion]", &mtypes.MsgWithdrawLease{LeaseID: lid}, m.byAddr[lid.Provider])
